@@ -931,7 +931,19 @@ impl LyNative for IterToList {
 
     hooks.push_root(list);
 
-    while !is_falsey(iter.next(hooks)?) {
+    loop {
+      match iter.next(hooks) {
+        Call::Ok(next) => {
+          if is_falsey(next) {
+            break;
+          }
+        },
+        Call::Err(err) => {
+          hooks.pop_roots(1);
+          return Call::Err(err);
+        },
+      }
+
       list.push(iter.current(), &hooks.as_gc());
     }
 
